@@ -170,9 +170,13 @@ func (in *verifBalIn) verifBalGen(m int) int32 {
 	if in.fixedGens || len(in.claims[m]) == 0 {
 		return 1
 	}
-	if !verifThorough() && !in.conflicted(m) {
-		// generations are only compared between claimants of the same partition
-		return 1
+	if !in.conflicted(m) {
+		// generations are only compared between claimants of the same partition; for
+		// the others only the sign matters (it selects the metadata that is parsed)
+		if !verifThorough() {
+			return 1
+		}
+		return [...]int32{-1, 1}[verifBalPick(2)]
 	}
 	return [...]int32{-1, 1, 2}[verifBalPick(3)]
 }
